@@ -150,7 +150,12 @@ def run_harness(lines, timeout=1800):
     return out
 
 
+MODEL_OK = True   # cleared by Check.model_tie when the model cannot be tied to /repo: the oracles still run
+
+
 def run_driver(lines, timeout=1800):
+    if not MODEL_OK:
+        return [None] * len(lines)
     rc, out, err = run_lines(DRIVER_BIN, [], lines, timeout)
     if rc != 0 or len(out) != len(lines):
         raise BrokenTie("driver-run", f"rc={rc} answers={len(out)}/{len(lines)} {err[-2000:]}")
@@ -268,6 +273,30 @@ class Check:
             self.obligations.append(("no-sorry-axiom-native_decide", True, "grep clean"))
         return failed, log
 
+    def model_tie(self, provers, regen=True, driver=True):
+        """Regenerate the extracted tables, re-check the obligations, rebuild the driver.  A broken tie is a
+        violation (no failing input known yet) and switches the model comparisons off; the caller goes on
+        with its model-independent oracle, which is what may find the concrete failing input."""
+        global MODEL_OK
+        try:
+            if regen:
+                from . import extractors
+                extractors.regen_all()
+            for module, theorems in provers:
+                failed, log = self.prove(module, theorems)
+                for t in failed:
+                    self.violation("proof", f"obligation {t} no longer checks", theorem=t, log=log[-3000:])
+            if driver:
+                ok, log = lake_build(["gedriver"])
+                if not ok:
+                    raise BrokenTie("driver-build", log)
+            return True
+        except BrokenTie as e:
+            MODEL_OK = False
+            self.notes.append(e.detail[-3000:])
+            self.violation("correspondence", f"tie to /repo broken: {e.what}", detail=e.detail[-3000:])
+            return False
+
     def leanchecker(self, modules):
         for m in modules:
             rc, out = sh(["lake", "env", "leanchecker", m], cwd=LEAN, timeout=3600)
@@ -280,6 +309,9 @@ class Check:
             self.distinct.add(hashlib.blake2b(repr(key).encode(), digest_size=8).digest())
         if sample is not None and len(self.samples) < 8:
             self.samples.append(sample)
+
+    def failed_obligations(self):
+        return [n for (n, ok, _) in self.obligations if not ok]
 
     def bump(self, k, n=1):
         self.cov[k] = self.cov.get(k, 0) + n
@@ -363,6 +395,9 @@ class Check:
 
 def diff_streams(chk, name, reqs, real, model, describe=None, on_diff=None, max_report=5):
     """Correspondence: compare model and implementation answers request by request."""
+    if not MODEL_OK:
+        chk.bump(f"corr:{name}:skipped-model-unavailable", len(reqs))
+        return 0
     nd = 0
     for i, (r, a, b) in enumerate(zip(reqs, real, model)):
         chk.disagreements_checked += 1
@@ -380,6 +415,9 @@ def diff_streams(chk, name, reqs, real, model, describe=None, on_diff=None, max_
 
 def run_node(reqs, timeout=3600):
     """reqs: list of JSON-able objects for js/runner.mjs; returns list of decoded answers."""
+    for r in reqs:
+        if isinstance(r, dict) and r.get("op") == "render":
+            r.setdefault("slotValues", True)     # slot value n reads as the probe "SV:n" (see js/runner.mjs)
     data = "\n".join(json.dumps(r) for r in reqs) + "\n"
     p = subprocess.run([NODE22, os.path.join(VERIF, "js", "runner.mjs")], input=data.encode(),
                        stdout=subprocess.PIPE, stderr=subprocess.PIPE, timeout=timeout, env=ENV)
